@@ -135,3 +135,86 @@ Proof.
           apply name_eqb_eq in E. subst. intros [= <-]. reflexivity. }
     destruct Hu as (acc' & -> & Hacc'). simpl. apply IH; assumption.
 Qed.
+
+(* ---------- [p1, .., pk, ...r, q1, .., qm] ---------- *)
+
+Definition arr_of (m : list val) : val :=
+  mkset (map (fun p : Z * val => vitem (fst p) (snd p)) (combine (map Z.of_nat (seq 0 (length m))) m)).
+
+Lemma count_extras_rest pre r suf :
+  count_extras (flat_items pre ++ PExtra r :: flat_items suf) = 1%nat.
+Proof.
+  unfold count_extras. rewrite filter_app, app_length. simpl.
+  pose proof (count_extras_flat pre) as H1. pose proof (count_extras_flat suf) as H2.
+  unfold count_extras in H1, H2. rewrite H1, H2. reflexivity.
+Qed.
+
+Lemma flat_items_length ls : length (flat_items ls) = length ls.
+Proof. unfold flat_items. apply map_length. Qed.
+
+(* ...r captures precisely the unmatched remainder, as a zero-based array *)
+Local Arguments Nat.ltb : simpl never.
+Theorem rest_array_pattern_sound fuel rho pre r suf v sc :
+  bind_pat (S (S (S fuel))) rho (PArr (flat_items pre ++ PExtra (Some r) :: flat_items suf)) (D v) = Ok sc ->
+  exists xs a m b, dense_array v = Some xs /\ xs = a ++ m ++ b /\
+    Forall2 (leaf_ok sc) pre a /\ Forall2 (leaf_ok sc) suf b /\ env_get r sc = Some (D (arr_of m)).
+Proof.
+  remember (S (S fuel)) as f eqn:Ef. cbn [bind_pat bindF]. cbn [as_data rbind].
+  destruct (dense_array v) as [xs|]; [|discriminate].
+  rewrite count_extras_rest. change (1 <? 1)%nat with false. cbv iota.
+  intros H. exists xs.
+  match type of H with ?GO _ xs [] = _ =>
+    assert (G : forall ls xs acc sc, GO (flat_items ls) xs acc = Ok sc ->
+                (forall z w, env_get z acc = Some w -> env_get z sc = Some w) /\ Forall2 (leaf_ok sc) ls xs);
+    [| assert (G2 : forall pre xs acc sc, GO (flat_items pre ++ PExtra (Some r) :: flat_items suf) xs acc = Ok sc ->
+                (forall z w, env_get z acc = Some w -> env_get z sc = Some w) /\
+                exists a m b, xs = a ++ m ++ b /\ Forall2 (leaf_ok sc) pre a /\ Forall2 (leaf_ok sc) suf b /\
+                              env_get r sc = Some (D (arr_of m)));
+       [| destruct (G2 pre xs [] sc H) as (_ & a & m & b & E & Fa & Fb & Hr); exists a, m, b; repeat split; assumption]] end.
+  - (* the loop over names, _ and literals *)
+    clear H pre suf xs sc v. induction ls as [|l ls IH]; intros xs acc sc H.
+    + simpl in H. destruct xs; [|discriminate]. injection H as <-. split; [auto | constructor].
+    + simpl in H. destruct xs as [|x xs]; [discriminate|].
+      destruct (bind_pat f rho (leaf_pat l) (D x)) as [sc0| | |] eqn:Eb; simpl in H; try discriminate.
+      destruct (env_matched_update acc sc0) as [acc'|] eqn:Eu; simpl in H; [|discriminate].
+      destruct (IH xs acc' sc H) as [Hkeep Hrest].
+      rewrite Ef in Eb. apply leaf_bind in Eb.
+      assert (Hacc : forall z w, env_get z acc = Some w -> env_get z acc' = Some w)
+        by (intros z w; eapply matched_update_preserves; exact Eu).
+      split; [intros z w Hz; apply Hkeep, Hacc, Hz|].
+      constructor; [|exact Hrest].
+      destruct l as [y| |w]; simpl.
+      * subst sc0. apply Hkeep. exact (proj1 (single_update acc y x acc' Eu)).
+      * exact I.
+      * apply Eb.
+  - (* the prefix, then the rest item, then the suffix *)
+    clear H xs sc v. induction pre0 as [|l pre0 IH]; intros xs acc sc H.
+    + simpl in H. rewrite flat_items_length in H.
+      destruct (length xs <? length suf)%nat eqn:El; [discriminate|]. apply Nat.ltb_ge in El.
+      set (take := (length xs - length suf)%nat) in *.
+      destruct (bind_pat f rho (PVar r) (D (mkset (map (fun p : Z * val => vitem (fst p) (snd p))
+                   (combine (map Z.of_nat (seq 0 (length (firstn take xs)))) (firstn take xs))))))
+        as [sc0| | |] eqn:Eb; simpl in H; try discriminate.
+      destruct (env_matched_update acc sc0) as [acc'|] eqn:Eu; simpl in H; [|discriminate].
+      destruct (G suf (skipn take xs) acc' sc H) as [Hkeep Hsuf].
+      rewrite Ef, bind_var in Eb. injection Eb as <-.
+      destruct (single_update acc r _ acc' Eu) as [Hr Hacc].
+      split; [intros z w Hz; apply Hkeep, Hacc, Hz|].
+      exists [], (firstn take xs), (skipn take xs). simpl.
+      split; [symmetry; apply firstn_skipn|]. split; [constructor|]. split; [exact Hsuf|].
+      apply Hkeep. exact Hr.
+    + simpl in H. destruct xs as [|x xs]; [discriminate|].
+      destruct (bind_pat f rho (leaf_pat l) (D x)) as [sc0| | |] eqn:Eb; simpl in H; try discriminate.
+      destruct (env_matched_update acc sc0) as [acc'|] eqn:Eu; simpl in H; [|discriminate].
+      destruct (IH xs acc' sc H) as (Hkeep & a & m & b & E & Fa & Fb & Hr).
+      rewrite Ef in Eb. apply leaf_bind in Eb.
+      assert (Hacc : forall z w, env_get z acc = Some w -> env_get z acc' = Some w)
+        by (intros z w; eapply matched_update_preserves; exact Eu).
+      split; [intros z w Hz; apply Hkeep, Hacc, Hz|].
+      exists (x :: a), m, b. split; [simpl; rewrite E; reflexivity|]. split; [|split; assumption].
+      constructor; [|exact Fa].
+      destruct l as [y| |w]; simpl.
+      * subst sc0. apply Hkeep. exact (proj1 (single_update acc y x acc' Eu)).
+      * exact I.
+      * apply Eb.
+Qed.
